@@ -166,6 +166,41 @@ impl HelperAttributes {
 //@   before for field in fields ## #[verus_spec(it => invariant it.seq().len() == fields@.len(), forall|i: int| 0 <= i < fields@.len() ==> *it.seq()[i] == fields@[i], 0 <= it.index@ <= fields@.len(), kind is Default, wcb.gps == old(wcb).gps, same(wcb, def_fields_phase(st(old(wcb), true), use_bounds, &old(wcb).gps, fields@, it.index@)))]
 //@ end
 verus! {
+#[verifier::external_body]
+pub fn with_ref<T: ToTok>(source: &T, is_ref: bool) -> TokenStream { unimplemented!() }
+#[verifier::external_body]
+pub fn expand_self(input: &Generics, to: &Type) -> Generics { unimplemented!() }
+}
+#[verus_verify]
+impl UnaryOp {
+    #[verifier::external_body]
+    fn to_func_name(self) -> &'static str { unimplemented!() }
+}
+#[verus_verify]
+impl BinaryOp {
+    #[verifier::external_body]
+    pub fn to_func_name(self) -> &'static str { unimplemented!() }
+}
+// operators: every impl (all owned / reference forms) resolves its bounds the same way: per-trait, shared, then each field
+//@ fn item_type.rs build_unary_op
+//@   attr #[verus_verify]
+//@   rewrite R11
+//@   before for field in fields ## #[verus_spec(fi => invariant wcb.gps == gps_of(&generics), kind == DeriveItemKind::UnaryOp(op), use_bounds == entry_phase(start(&generics), e).go, fi.seq().len() == fields@.len(), forall|i: int| 0 <= i < fields@.len() ==> *fi.seq()[i] == fields@[i], 0 <= fi.index@ <= fields@.len(), same(&wcb, fields_phase(entry_phase(start(&generics), e), use_bounds, &gps_of(&generics), fields@, fi.index@, kind)))]
+//@   before let wheres = wcb.build( ## proof! { assert(same(&wcb, expected_fields(&generics, e, fields@, kind))); }
+//@ end
+//@ fn item_type.rs build_assign_op
+//@   attr #[verus_verify]
+//@   rewrite R11
+//@   before for field in fields ## #[verus_spec(fi => invariant wcb.gps == gps_of(&generics), kind == DeriveItemKind::AssignOp(op), use_bounds == entry_phase(start(&generics), e).go, fi.seq().len() == fields@.len(), forall|i: int| 0 <= i < fields@.len() ==> *fi.seq()[i] == fields@[i], 0 <= fi.index@ <= fields@.len(), same(&wcb, fields_phase(entry_phase(start(&generics), e), use_bounds, &gps_of(&generics), fields@, fi.index@, kind)))]
+//@   before let wheres = wcb.build( ## proof! { assert(same(&wcb, expected_fields(&generics, e, fields@, kind))); }
+//@ end
+//@ fn item_type.rs build_binary_op
+//@   attr #[verus_verify]
+//@   rewrite R11
+//@   before for field in fields ## #[verus_spec(fi => invariant wcb.gps == gps_of(&generics), kind == DeriveItemKind::BinaryOp(op), use_bounds == entry_phase(start(&generics), e).go, fi.seq().len() == fields@.len(), forall|i: int| 0 <= i < fields@.len() ==> *fi.seq()[i] == fields@[i], 0 <= fi.index@ <= fields@.len(), same(&wcb, fields_phase(entry_phase(start(&generics), e), use_bounds, &gps_of(&generics), fields@, fi.index@, kind)))]
+//@   before let wheres = wcb.build( ## proof! { assert(same(&wcb, expected_fields(&generics, e, fields@, kind))); }
+//@ end
+verus! {
 pub open spec fn use_bounds_outer(g: &Generics, e: &DeriveEntry) -> bool { entry_phase(start(g), e).go }
 }
 fn main() {}
